@@ -675,7 +675,14 @@ func (env *SpecEnv) call(n *ast.CallExpr) sv {
 		if env.old == nil {
 			env.fail("old() outside a postcondition")
 		}
-		return env.withState(env.old).eval(n.Args[0])
+		oe := env.withState(env.old)
+		r := oe.eval(n.Args[0])
+		switch r.V.(type) {
+		case *SliceVal, *ArrayVal:
+			// snapshot the contents in the old state (the backing object may not exist in the new one)
+			return sv{V: oe.seq(r), T: r.T}
+		}
+		return r
 	case "implies":
 		a := env.Bool(n.Args[0])
 		if a.IsFalse() {
